@@ -1202,6 +1202,15 @@ class SQLModel:
         if using is None:
             using = OrderedSet(project_node.column_names)
         subops = {k: op for (k, op) in project_node.ops.items() if k in using}
+        if (
+            (len(subops) < 1)
+            and (len(project_node.group_by) < 1)
+            and (len(project_node.ops) > 0)
+        ):
+            # no result is needed, still must aggregate to a single row
+            k0 = [k for k in project_node.ops.keys()][0]
+            subops = {k0: project_node.ops[k0]}
+            using = OrderedSet(using).union([k0])
         subusing = project_node.columns_used_from_sources(using=using)[0]
         terms = {ci: self.expr_to_sql(oi) for (ci, oi) in subops.items()}
         terms.update({g: None for g in project_node.group_by})
@@ -2040,7 +2049,7 @@ class SQLModel:
         terms_strs = ["*"]  # allow * notation if nothing is specified
         terms = near_sql.terms
         if terms is not None:
-            if columns is None:
+            if (columns is None) or (len(columns) < 1):
                 columns = [k for k in terms.keys()]
             terms_strs = [self.enc_term_(k, terms=terms) for k in columns]
             if len(terms_strs) < 1:
